@@ -175,7 +175,7 @@ def work(item, res):
 
 def run(ctx):
     bound = 1 if ctx.quick else 2
-    cap = 3000 if ctx.quick else 40000
+    cap = 3000 if ctx.quick else 15000
     items = [(c, bound, cap) for c in configs(ctx)]
     res = core.pmap(ctx, work, items, chunk=1)
     res.cov["states"] = len(res.nontrivial)
